@@ -314,7 +314,7 @@ int main(int argc, char **argv)
     {
       std::vector<int> d;
       for (int i = 0; i < g_shm->ndied && i < 16; ++i)
-        d.push_back(g_shm->died[i]);
+        d.push_back(static_cast<int>(g_shm->died[i]));
       std::sort(d.begin(), d.end());
       for (int x : d)
         died.push_back(x);
@@ -364,6 +364,7 @@ int main(int argc, char **argv)
     }
     emit(j);
     g_shm->findings++;
+    g_shm->behaviours++;
     start = cur + 1;
   }
   emit({{"r", "summary"},
